@@ -383,7 +383,10 @@ impl FsContext<'_> {
             WORKER_FS_CONTEXT.with(|ctx| {
                 let borrowed = ctx.borrow();
                 let worker_ctx = borrowed.as_ref().unwrap();
-                let mut fs_guard = worker_ctx.fs.lock().unwrap();
+                // Drop paths must never panic: a poisoned mutex (a panic while the
+                // lock was held, e.g. a `Reaction::Panic` barrier fired from the
+                // corruption hook) is still a usable `Fs` for bookkeeping.
+                let mut fs_guard = worker_ctx.fs.lock().unwrap_or_else(|e| e.into_inner());
                 let now = worker_ctx.time;
                 f(FsContext {
                     fs: &mut fs_guard,
@@ -396,7 +399,8 @@ impl FsContext<'_> {
         let Some(arc) = CURRENT_FS_ARC.with(|c| c.borrow().as_ref().map(Arc::clone)) else {
             return;
         };
-        let mut lock = arc.lock().expect("Fs mutex poisoned");
+        // See above: tolerate poison here, this runs from destructors during unwinding.
+        let mut lock = arc.lock().unwrap_or_else(|e| e.into_inner());
         let now = CURRENT_NOW.with(|c| c.get());
         f(FsContext { fs: &mut lock, now });
     }
